@@ -33,7 +33,7 @@ func init() {
 			if m.C("overlapping_calls") < 10000 {
 				u = append(u, fmt.Sprintf("only %d overlapping calls", m.C("overlapping_calls")))
 			}
-			for _, c := range []string{"histories_sequential", "histories_concurrent", "snapshots_compared", "calls_eval", "calls_tryeval", "calls_dump", "calls_dumptable", "calls_failing", "programs_deep_stack", "programs_big_list_constants", "programs_event_mode", "race_histories"} {
+			for _, c := range []string{"histories_sequential", "histories_concurrent", "snapshots_compared", "calls_eval", "calls_tryeval", "calls_dump", "calls_dumptable", "calls_failing", "programs_deep_stack", "programs_big_list_constants", "programs_event_mode", "race_histories", "list_bindings_from_refilled_buffers"} {
 				if m.C(c) == 0 {
 					u = append(u, c+" = 0")
 				}
@@ -114,7 +114,14 @@ func c07Tree(r *rand.Rand, k int) (*Node, string) {
 			other = Var("ls0", TSList)
 		}
 		var t *Node
-		switch r.Intn(4) {
+		switch r.Intn(5) {
+		case 4:
+			// membership in a caller-supplied list (the calls below bind it from reused, refilled buffers)
+			if lst.Ty == TIList {
+				t = Op("or", TBool, Op("in", TBool, Var("i0", TInt), other), Op("in", TBool, Lit(int64(-77)), lst))
+			} else {
+				t = Op("or", TBool, Op("in", TBool, Var("s0", TStr), other), Op("in", TBool, Lit("no such element"), lst))
+			}
 		case 0:
 			t = Op("overlap", TBool, lst, other)
 		case 1:
@@ -181,7 +188,7 @@ func c07Build(w *W, r *rand.Rand, k int) *c07Prog {
 		// list variables long enough to reach the hashing path with the constant
 		for i := range bs {
 			if _, ok := bs[i].Vals["li0"]; ok && i%3 != 2 {
-				l := bigIntList(r, []int{10, 80, 150}[r.Intn(3)])
+				l := bigIntList(r, []int{10, 40, 80, 150}[r.Intn(4)])
 				if i%2 == 0 {
 					// a value family disjoint from the constants: a false result that leftovers of other calls could flip
 					for k := range l {
@@ -189,15 +196,21 @@ func c07Build(w *W, r *rand.Rand, k int) *c07Prog {
 					}
 				}
 				bs[i].Vals["li0"] = l
+				if _, ok := bs[i].Vals["i0"]; ok && r.Intn(2) == 0 {
+					bs[i].Vals["i0"] = l[r.Intn(len(l))]
+				}
 			}
 			if _, ok := bs[i].Vals["ls0"]; ok && i%3 != 2 {
-				l := bigStrList(r, []int{10, 80, 150}[r.Intn(3)])
+				l := bigStrList(r, []int{10, 40, 80, 150}[r.Intn(4)])
 				if i%2 == 0 {
 					for k := range l {
 						l[k] += "-other"
 					}
 				}
 				bs[i].Vals["ls0"] = l
+				if _, ok := bs[i].Vals["s0"]; ok && r.Intn(2) == 0 {
+					bs[i].Vals["s0"] = l[r.Intn(len(l))]
+				}
 			}
 		}
 		w.Inc("programs_big_list_constants")
@@ -230,6 +243,59 @@ type c07Result struct {
 	failing     int64
 	overlapping int64
 	switches    int64
+	pooled      int64 // list bindings served from a refilled buffer
+}
+
+// pooledVals returns vals with every []int64/[]string value copied into the goroutine's buffer of that name and length
+// (allocated on first use, refilled in place afterwards).
+func pooledVals(bufs map[string]interface{}, vals map[string]interface{}, refills *int64) map[string]interface{} {
+	var out map[string]interface{}
+	for k, v := range vals {
+		var nv interface{}
+		switch l := v.(type) {
+		case []int64:
+			if len(l) == 0 {
+				continue
+			}
+			key := fmt.Sprintf("%s/%d", k, len(l))
+			buf, ok := bufs[key].([]int64)
+			if !ok {
+				buf = make([]int64, len(l))
+				bufs[key] = buf
+			} else {
+				*refills++
+			}
+			copy(buf, l)
+			nv = buf
+		case []string:
+			if len(l) == 0 {
+				continue
+			}
+			key := fmt.Sprintf("%s/%d", k, len(l))
+			buf, ok := bufs[key].([]string)
+			if !ok {
+				buf = make([]string, len(l))
+				bufs[key] = buf
+			} else {
+				*refills++
+			}
+			copy(buf, l)
+			nv = buf
+		default:
+			continue
+		}
+		if out == nil {
+			out = make(map[string]interface{}, len(vals))
+			for k2, v2 := range vals {
+				out[k2] = v2
+			}
+		}
+		out[k] = nv
+	}
+	if out == nil {
+		return vals
+	}
+	return out
 }
 
 func c07Run(w *W, idx int, race bool) {
@@ -300,10 +366,15 @@ func c07Run(w *W, idx int, race bool) {
 			tr := NewTracer()
 			tr.YieldMask = yield
 			tr.rng = uint32(gr.Int31())
+			bufs := map[string]interface{}{} // this goroutine's list buffers, one per (variable, length)
 			for c := 0; c < calls; c++ {
 				p := pool[gr.Intn(len(pool))]
 				bi := gr.Intn(len(p.bindings))
 				b := p.bindings[bi]
+				if gr.Intn(2) == 0 {
+					// the caller binds list variables from its own reused buffers, refilled in place for this call
+					b.Vals = pooledVals(bufs, b.Vals, &res.pooled)
+				}
 				kind := gr.Intn(10)
 				if atomic.AddInt64(&active, 1) > 1 {
 					res.overlapping++
@@ -383,6 +454,7 @@ func c07Run(w *W, idx int, race bool) {
 		w.Count("calls_failing", res.failing)
 		w.Count("overlapping_calls", res.overlapping)
 		w.Count("hook_context_switches", res.switches)
+		w.Count("list_bindings_from_refilled_buffers", res.pooled)
 		for i := int64(0); i < res.overlapping && i < 200; i++ {
 			w.Nontrivial(fmt.Sprint(w.Phase, w.Case), fmt.Sprint(g), fmt.Sprint(i))
 		}
